@@ -132,4 +132,9 @@ def units(ctx):
     from contracts import utils as _ut
     from vlib.pyvc.unit import contract_unit as _cu2
     us += [_cu2(c, world_setup=_ut.setup) for c in _ut.predicate_contracts()]
+    from contracts import colls3 as _c3
+    from vlib.pyvc.unit import contract_unit as _cu3
+    us += [_cu3(c, world_setup=_c3.setup)
+           for c in _c3.predicate_contracts() + _c3.wrapper_contracts()
+           if 'C14' in c.serves]
     return us
